@@ -5,7 +5,7 @@
 set -u
 first=$1
 ids="$@"
-case "$first" in S*|T*|U*|D*|V*|W*) shift; ids="$@";; esac
+case "$first" in S*|T*|U*|D*|V*|W*|X*) shift; ids="$@";; esac
 ag=/tmp/ag-$first; rp=/tmp/rp-$first
 fail() { echo "INTEGRATE-FAIL: $*"; exit 1; }
 
